@@ -312,9 +312,11 @@ func (s *synth) declStruct() string {
 		s.tag("embedded-struct")
 	}
 	for i := 0; i < nf; i++ {
-		fname := fmt.Sprintf("F%d", i)
+		// field names are unique across structs, so that flattening an embedded struct never shadows a field
+		// (shadowing is a known-finding class with its own corpus entry)
+		fname := fmt.Sprintf("F%s%d", name, i)
 		if s.r.chance(1, 8) {
-			fname = fmt.Sprintf("f%d", i) // unexported
+			fname = fmt.Sprintf("f%s%d", name, i) // unexported
 		}
 		ty := s.anyType(0, byValue, true)
 		if s.p.Recursive && s.r.chance(1, 10) {
